@@ -249,7 +249,7 @@ func dumpFacts(prog *ssa.Program) *facts {
 }
 
 // oracleInput renders the facts in the oracle's line protocol.
-func (F *facts) oracleInput(id string) []byte {
+func (F *facts) oracleInput(id string, noexec bool) []byte {
 	var b bytes.Buffer
 	var body bytes.Buffer
 	for _, ff := range F.fns {
@@ -266,7 +266,7 @@ func (F *facts) oracleInput(id string) []byte {
 				F.problems = append(F.problems, "anonymous function outside AllFunctions: "+a.String())
 			}
 		}
-		fmt.Fprintf(&body, "fn %s %d %s %s\n", f.Name(), hasPkg, pkgName, joinOrDash(anon))
+		fmt.Fprintf(&body, "fn %s %d %s %s\n", strings.ReplaceAll(f.Name(), " ", "_"), hasPkg, pkgName, joinOrDash(anon))
 		for _, ins := range ff.instrs {
 			F.nInstr++
 			kind, ops, ok := operandFields(ins)
@@ -350,6 +350,9 @@ func (F *facts) oracleInput(id string) []byte {
 		}
 	}
 	fmt.Fprintf(&b, "prog %s\n", id)
+	if noexec {
+		b.WriteString("opt noexec\n")
+	}
 	for _, r := range F.typeRows {
 		b.WriteString(r + "\n")
 	}
